@@ -103,3 +103,474 @@ func ReadCFFInfo(cff []byte) (*CFFInfo, error) {
 	}
 	return info, nil
 }
+
+// ---------------------------------------------------------------------------------------------
+// Exact Type 2 charstring reader (Adobe TN #5176 "The Compact Font Format Specification" and
+// TN #5177 "The Type 2 Charstring Format"). x/image rounds 16.16 fixed-point operands to
+// integers; this reader keeps them, so that outlines can be compared to 1e-6 of the font size.
+// Name-keyed fonts only (one Private DICT); arithmetic/storage operators and seac are reported
+// as unsupported.
+
+// CFF holds what is needed to interpret charstrings.
+type CFF struct {
+	CharStrings [][]byte
+	gsubrs      [][]byte
+	subrs       [][]byte
+}
+
+type dictEntry struct {
+	op   int
+	args []float64
+}
+
+func parseDict(d []byte) ([]dictEntry, error) {
+	var out []dictEntry
+	var args []float64
+	for i := 0; i < len(d); {
+		b0 := d[i]
+		switch {
+		case b0 == 12:
+			if i+1 >= len(d) {
+				return nil, fmt.Errorf("cff: DICT is truncated")
+			}
+			out = append(out, dictEntry{1200 + int(d[i+1]), args})
+			args = nil
+			i += 2
+		case b0 <= 21:
+			out = append(out, dictEntry{int(b0), args})
+			args = nil
+			i++
+		case b0 == 28:
+			if i+2 >= len(d) {
+				return nil, fmt.Errorf("cff: DICT is truncated")
+			}
+			args = append(args, float64(int16(uint16(d[i+1])<<8|uint16(d[i+2]))))
+			i += 3
+		case b0 == 29:
+			if i+4 >= len(d) {
+				return nil, fmt.Errorf("cff: DICT is truncated")
+			}
+			args = append(args, float64(int32(uint32(d[i+1])<<24|uint32(d[i+2])<<16|uint32(d[i+3])<<8|uint32(d[i+4]))))
+			i += 5
+		case b0 == 30:
+			// real number: only its presence matters here (no real-valued offsets exist)
+			i++
+			for i < len(d) {
+				v := d[i]
+				i++
+				if v&0x0F == 0x0F || v>>4 == 0x0F {
+					break
+				}
+			}
+			args = append(args, 0)
+		case b0 >= 32 && b0 <= 246:
+			args = append(args, float64(int(b0)-139))
+			i++
+		case b0 >= 247 && b0 <= 250:
+			if i+1 >= len(d) {
+				return nil, fmt.Errorf("cff: DICT is truncated")
+			}
+			args = append(args, float64((int(b0)-247)*256+int(d[i+1])+108))
+			i += 2
+		case b0 >= 251 && b0 <= 254:
+			if i+1 >= len(d) {
+				return nil, fmt.Errorf("cff: DICT is truncated")
+			}
+			args = append(args, float64(-(int(b0)-251)*256-int(d[i+1])-108))
+			i += 2
+		default:
+			return nil, fmt.Errorf("cff: reserved byte %d in a DICT", b0)
+		}
+	}
+	return out, nil
+}
+
+// OpenCFF reads the INDEXes of a name-keyed CFF table.
+func OpenCFF(cff []byte) (*CFF, error) {
+	if len(cff) < 4 || cff[0] != 1 {
+		return nil, fmt.Errorf("cff: not a CFF version 1 table")
+	}
+	_, p, err := cffIndex(cff, int(cff[2]))
+	if err != nil {
+		return nil, err
+	}
+	tops, p, err := cffIndex(cff, p)
+	if err != nil {
+		return nil, err
+	}
+	if len(tops) != 1 {
+		return nil, fmt.Errorf("cff: %d Top DICTs", len(tops))
+	}
+	_, p, err = cffIndex(cff, p) // String INDEX
+	if err != nil {
+		return nil, err
+	}
+	c := &CFF{}
+	c.gsubrs, _, err = cffIndex(cff, p)
+	if err != nil {
+		return nil, err
+	}
+	top, err := parseDict(tops[0])
+	if err != nil {
+		return nil, err
+	}
+	csOff, privSize, privOff := -1, -1, -1
+	for _, e := range top {
+		switch e.op {
+		case 1230:
+			return nil, &ErrUnsupported{"CID-keyed CFF"}
+		case 1206:
+			if len(e.args) == 1 && e.args[0] != 2 {
+				return nil, &ErrUnsupported{fmt.Sprintf("CharstringType %g", e.args[0])}
+			}
+		case 17:
+			if len(e.args) == 1 {
+				csOff = int(e.args[0])
+			}
+		case 18:
+			if len(e.args) == 2 {
+				privSize, privOff = int(e.args[0]), int(e.args[1])
+			}
+		}
+	}
+	if csOff <= 0 {
+		return nil, fmt.Errorf("cff: no CharStrings offset in the Top DICT")
+	}
+	c.CharStrings, _, err = cffIndex(cff, csOff)
+	if err != nil {
+		return nil, err
+	}
+	if privOff > 0 && privSize >= 0 {
+		if privOff+privSize > len(cff) {
+			return nil, fmt.Errorf("cff: Private DICT lies outside the table")
+		}
+		priv, err := parseDict(cff[privOff : privOff+privSize])
+		if err != nil {
+			return nil, err
+		}
+		for _, e := range priv {
+			if e.op == 19 && len(e.args) == 1 {
+				c.subrs, _, err = cffIndex(cff, privOff+int(e.args[0]))
+				if err != nil {
+					return nil, err
+				}
+			}
+		}
+	}
+	return c, nil
+}
+
+func subrBias(n int) int {
+	switch {
+	case n < 1240:
+		return 107
+	case n < 33900:
+		return 1131
+	}
+	return 32768
+}
+
+type t2 struct {
+	c          *CFF
+	stack      []float64
+	x, y       float64
+	sx, sy     float64
+	open       bool
+	nStems     int
+	widthDone  bool
+	segs       []Seg
+	ended      bool
+	fractional bool
+	depth      int
+}
+
+func (t *t2) closeContour() {
+	if t.open && (t.x != t.sx || t.y != t.sy) {
+		t.segs = append(t.segs, Seg{Op: 'L', P: [3][2]float64{{t.sx, t.sy}}})
+	}
+	t.open = false
+}
+
+func (t *t2) moveTo(dx, dy float64) {
+	t.closeContour()
+	t.x += dx
+	t.y += dy
+	t.sx, t.sy = t.x, t.y
+	t.open = true
+	t.segs = append(t.segs, Seg{Op: 'M', P: [3][2]float64{{t.x, t.y}}})
+}
+
+func (t *t2) lineTo(dx, dy float64) {
+	t.x += dx
+	t.y += dy
+	t.segs = append(t.segs, Seg{Op: 'L', P: [3][2]float64{{t.x, t.y}}})
+}
+
+func (t *t2) curveTo(dxa, dya, dxb, dyb, dxc, dyc float64) {
+	xa, ya := t.x+dxa, t.y+dya
+	xb, yb := xa+dxb, ya+dyb
+	t.x, t.y = xb+dxc, yb+dyc
+	t.segs = append(t.segs, Seg{Op: 'C', P: [3][2]float64{{xa, ya}, {xb, yb}, {t.x, t.y}}})
+}
+
+// takeWidth removes the optional width operand in front of the first stack-clearing operator.
+func (t *t2) takeWidth(hasExtra bool) {
+	if !t.widthDone {
+		t.widthDone = true
+		if hasExtra && len(t.stack) > 0 {
+			t.stack = t.stack[1:]
+		}
+	}
+}
+
+func (t *t2) run(code []byte) error {
+	if t.depth > 10 {
+		return fmt.Errorf("cff: subroutines nested deeper than 10")
+	}
+	for i := 0; i < len(code) && !t.ended; {
+		b0 := code[i]
+		switch {
+		case b0 == 28:
+			if i+2 >= len(code) {
+				return fmt.Errorf("cff: charstring is truncated")
+			}
+			t.stack = append(t.stack, float64(int16(uint16(code[i+1])<<8|uint16(code[i+2]))))
+			i += 3
+			continue
+		case b0 >= 32 && b0 <= 246:
+			t.stack = append(t.stack, float64(int(b0)-139))
+			i++
+			continue
+		case b0 >= 247 && b0 <= 250:
+			if i+1 >= len(code) {
+				return fmt.Errorf("cff: charstring is truncated")
+			}
+			t.stack = append(t.stack, float64((int(b0)-247)*256+int(code[i+1])+108))
+			i += 2
+			continue
+		case b0 >= 251 && b0 <= 254:
+			if i+1 >= len(code) {
+				return fmt.Errorf("cff: charstring is truncated")
+			}
+			t.stack = append(t.stack, float64(-(int(b0)-251)*256-int(code[i+1])-108))
+			i += 2
+			continue
+		case b0 == 255:
+			if i+4 >= len(code) {
+				return fmt.Errorf("cff: charstring is truncated")
+			}
+			v := int32(uint32(code[i+1])<<24 | uint32(code[i+2])<<16 | uint32(code[i+3])<<8 | uint32(code[i+4]))
+			if v&0xFFFF != 0 {
+				t.fractional = true
+			}
+			t.stack = append(t.stack, float64(v)/65536)
+			i += 5
+			continue
+		}
+		// operator
+		i++
+		s := t.stack
+		n := len(s)
+		clear := true
+		switch b0 {
+		case 1, 3, 18, 23: // hstem vstem hstemhm vstemhm
+			t.takeWidth(n%2 == 1)
+			t.nStems += len(t.stack) / 2
+		case 19, 20: // hintmask cntrmask (with implicit vstem)
+			t.takeWidth(n%2 == 1)
+			t.nStems += len(t.stack) / 2
+			i += (t.nStems + 7) / 8
+			if i > len(code) {
+				return fmt.Errorf("cff: hint mask is truncated")
+			}
+		case 21: // rmoveto
+			t.takeWidth(n > 2)
+			s = t.stack
+			if len(s) < 2 {
+				return fmt.Errorf("cff: rmoveto with %d operands", len(s))
+			}
+			t.moveTo(s[0], s[1])
+		case 22: // hmoveto
+			t.takeWidth(n > 1)
+			s = t.stack
+			if len(s) < 1 {
+				return fmt.Errorf("cff: hmoveto without operand")
+			}
+			t.moveTo(s[0], 0)
+		case 4: // vmoveto
+			t.takeWidth(n > 1)
+			s = t.stack
+			if len(s) < 1 {
+				return fmt.Errorf("cff: vmoveto without operand")
+			}
+			t.moveTo(0, s[0])
+		case 5: // rlineto
+			for k := 0; k+1 < n; k += 2 {
+				t.lineTo(s[k], s[k+1])
+			}
+		case 6, 7: // hlineto vlineto
+			horiz := b0 == 6
+			for k := 0; k < n; k++ {
+				if horiz {
+					t.lineTo(s[k], 0)
+				} else {
+					t.lineTo(0, s[k])
+				}
+				horiz = !horiz
+			}
+		case 8: // rrcurveto
+			for k := 0; k+5 < n; k += 6 {
+				t.curveTo(s[k], s[k+1], s[k+2], s[k+3], s[k+4], s[k+5])
+			}
+		case 24: // rcurveline
+			k := 0
+			for ; k+5 < n-2; k += 6 {
+				t.curveTo(s[k], s[k+1], s[k+2], s[k+3], s[k+4], s[k+5])
+			}
+			if k+1 < n {
+				t.lineTo(s[k], s[k+1])
+			}
+		case 25: // rlinecurve
+			k := 0
+			for ; k+1 < n-6; k += 2 {
+				t.lineTo(s[k], s[k+1])
+			}
+			if k+5 < n {
+				t.curveTo(s[k], s[k+1], s[k+2], s[k+3], s[k+4], s[k+5])
+			}
+		case 26: // vvcurveto
+			k := 0
+			dx1 := 0.0
+			if n%4 == 1 {
+				dx1 = s[0]
+				k = 1
+			}
+			for ; k+3 < n; k += 4 {
+				t.curveTo(dx1, s[k], s[k+1], s[k+2], 0, s[k+3])
+				dx1 = 0
+			}
+		case 27: // hhcurveto
+			k := 0
+			dy1 := 0.0
+			if n%4 == 1 {
+				dy1 = s[0]
+				k = 1
+			}
+			for ; k+3 < n; k += 4 {
+				t.curveTo(s[k], dy1, s[k+1], s[k+2], s[k+3], 0)
+				dy1 = 0
+			}
+		case 30, 31: // vhcurveto hvcurveto
+			horiz := b0 == 31
+			for k := 0; k+3 < n; k += 4 {
+				last := 0.0
+				if n-k == 5 {
+					last = s[k+4]
+				}
+				if horiz {
+					t.curveTo(s[k], 0, s[k+1], s[k+2], last, s[k+3])
+				} else {
+					t.curveTo(0, s[k], s[k+1], s[k+2], s[k+3], last)
+				}
+				horiz = !horiz
+			}
+		case 10, 29: // callsubr callgsubr
+			clear = false
+			if n < 1 {
+				return fmt.Errorf("cff: subroutine call without operand")
+			}
+			list := t.c.subrs
+			if b0 == 29 {
+				list = t.c.gsubrs
+			}
+			idx := int(s[n-1]) + subrBias(len(list))
+			t.stack = s[:n-1]
+			if idx < 0 || idx >= len(list) {
+				return fmt.Errorf("cff: subroutine %d does not exist (%d subroutines)", idx, len(list))
+			}
+			t.depth++
+			if err := t.run(list[idx]); err != nil {
+				return err
+			}
+			t.depth--
+		case 11: // return
+			return nil
+		case 14: // endchar
+			t.takeWidth(n == 1 || n == 5)
+			if len(t.stack) >= 4 {
+				return &ErrUnsupported{"endchar with seac operands"}
+			}
+			t.closeContour()
+			t.ended = true
+		case 12:
+			if i >= len(code) {
+				return fmt.Errorf("cff: escape operator is truncated")
+			}
+			b1 := code[i]
+			i++
+			switch b1 {
+			case 34: // hflex
+				if n < 7 {
+					return fmt.Errorf("cff: hflex with %d operands", n)
+				}
+				t.curveTo(s[0], 0, s[1], s[2], s[3], 0)
+				t.curveTo(s[4], 0, s[5], -s[2], s[6], 0)
+			case 35: // flex
+				if n < 13 {
+					return fmt.Errorf("cff: flex with %d operands", n)
+				}
+				t.curveTo(s[0], s[1], s[2], s[3], s[4], s[5])
+				t.curveTo(s[6], s[7], s[8], s[9], s[10], s[11])
+			case 36: // hflex1
+				if n < 9 {
+					return fmt.Errorf("cff: hflex1 with %d operands", n)
+				}
+				t.curveTo(s[0], s[1], s[2], s[3], s[4], 0)
+				t.curveTo(s[5], 0, s[6], s[7], s[8], -(s[1] + s[3] + s[7]))
+			case 37: // flex1
+				if n < 11 {
+					return fmt.Errorf("cff: flex1 with %d operands", n)
+				}
+				dx := s[0] + s[2] + s[4] + s[6] + s[8]
+				dy := s[1] + s[3] + s[5] + s[7] + s[9]
+				t.curveTo(s[0], s[1], s[2], s[3], s[4], s[5])
+				if abs(dx) > abs(dy) {
+					t.curveTo(s[6], s[7], s[8], s[9], s[10], -dy)
+				} else {
+					t.curveTo(s[6], s[7], s[8], s[9], -dx, s[10])
+				}
+			default:
+				return &ErrUnsupported{fmt.Sprintf("charstring operator 12 %d", b1)}
+			}
+		default:
+			return fmt.Errorf("cff: reserved charstring operator %d", b0)
+		}
+		if clear {
+			t.stack = t.stack[:0]
+		}
+	}
+	return nil
+}
+
+func abs(x float64) float64 {
+	if x < 0 {
+		return -x
+	}
+	return x
+}
+
+// Outline interprets the charstring of a glyph exactly. fractional reports whether a 16.16
+// operand with a non-zero fraction occurred (x/image rounds those).
+func (c *CFF) Outline(gid int) (segs []Seg, fractional bool, err error) {
+	if gid < 0 || gid >= len(c.CharStrings) {
+		return nil, false, fmt.Errorf("cff: glyph index %d outside the %d charstrings", gid, len(c.CharStrings))
+	}
+	t := &t2{c: c}
+	if err := t.run(c.CharStrings[gid]); err != nil {
+		return nil, false, err
+	}
+	if !t.ended {
+		return nil, false, fmt.Errorf("cff: charstring %d does not end with endchar", gid)
+	}
+	return t.segs, t.fractional, nil
+}
